@@ -36,7 +36,7 @@ TRefClause(e, o) ==
 First(cs) == IF \E k \in DOMAIN cs : cs[k] # "" THEN cs[CHOOSE k \in DOMAIN cs : cs[k] # "" /\ \A j \in 1..(k - 1) : cs[j] = ""] ELSE ""
 
 OnConstruct(e) ==
-  First(<<ConstructClause(e.obs, e.clean, e.out.rows), CovClause(e, e.out), UnitsClause(e, e.out),
+  First(<<IF e.raised THEN "C15.ConstructRaises" ELSE "", ConstructClause(e.obs, e.clean, e.out.rows), CovClause(e, e.out), UnitsClause(e, e.out),
           IF e.hascov THEN "" ELSE IvarClause(e.out), TRefClause(e, e.out)>>)
 
 OnCopy(e) ==
